@@ -21,6 +21,7 @@ func runC11(c *Ctx) {
 	c.Rule("C11-R3", "no package-level stores and no stores into the shared rule/AST reachable from the workers", 3)
 	c.Rule("C11-R4", "guarded state touched by workers (C14-R4 tables)", 10)
 	c.Rule("C11-R5", "no map-order leaks in console/JSON output", 3)
+	defer c11WorkerCount(c)
 
 	cmd := p.Pkg("cmd/pint")
 	if cmd == nil {
@@ -165,9 +166,60 @@ func runC11(c *Ctx) {
 				}
 				return true
 			})
-			for _, k := range []string{".Path.Name", ".Problem.Lines.First", ".Problem.Lines.Last", ".Problem.Severity", ".Problem.Reporter", ".Problem.Summary", ".Problem.Diagnostics"} {
+			for _, k := range []string{".Path.Name", ".Problem.Lines.First", ".Problem.Lines.Last", ".Problem.Severity", ".Problem.Reporter", ".Problem.Summary", ".Problem.Diagnostics", ".Problem.Details"} {
 				c.Check(keys[k], "C11-R1", "SortReports:comparator keys on"+k, cmpLit.Pos(), "compared on both operands", "the report order no longer depends on"+k+": reports differing only there keep their arrival order")
 			}
+			// the helper that orders two diagnostic lists looks at ALL of them and is
+			// antisymmetric: no fixed element of a parameter is singled out, and no
+			// non-zero constant is returned on the strength of one side's length alone
+			ast.Inspect(cmpLit.Body, func(n ast.Node) bool {
+				call, ok := n.(*ast.CallExpr)
+				if !ok || len(call.Args) != 2 || !strings.HasSuffix(exprStr(call.Args[0]), ".Problem.Diagnostics") {
+					return true
+				}
+				h := p.FuncOf(Callee(rinfo, call))
+				if h == nil || h.Decl.Body == nil {
+					return true
+				}
+				hinfo := h.Pkg.TypesInfo
+				pa0, pb0 := paramObj(h, 0), paramObj(h, 1)
+				fixed := ""
+				ast.Inspect(h.Decl.Body, func(m ast.Node) bool {
+					if ix, ok := m.(*ast.IndexExpr); ok {
+						if _, isC := constInt(hinfo, ix.Index); isC && (isObj(hinfo, ix.X, pa0) || isObj(hinfo, ix.X, pb0)) {
+							fixed = exprStr(ix)
+						}
+					}
+					return true
+				})
+				c.Check(fixed == "", "C11-R1", h.Obj.Name()+":orders two diagnostic lists by all their elements", h.Decl.Pos(), "no fixed element singled out",
+					"only `"+fixed+"` takes part in the comparison: reports that differ in a later diagnostic compare equal and keep the order in which the workers delivered them")
+				hpm := parentMap(h.Decl.Body)
+				oneSided := ""
+				for _, r := range returnsIn(h.Decl.Body.List) {
+					if len(r.Results) != 1 {
+						continue
+					}
+					if k, isC := constInt(hinfo, r.Results[0]); !isC || k == 0 {
+						continue
+					}
+					ma, mb := false, false
+					for _, a := range lexicalGuards(hpm, r, h.Decl.Body) {
+						if mentionsObj(hinfo, a.E, pa0) {
+							ma = true
+						}
+						if mentionsObj(hinfo, a.E, pb0) {
+							mb = true
+						}
+					}
+					if ma != mb {
+						oneSided = p.Pos(r.Pos())
+					}
+				}
+				c.Check(oneSided == "", "C11-R1", h.Obj.Name()+":is antisymmetric", h.Decl.Pos(), "no verdict from one operand alone",
+					"a non-zero result is returned at "+oneSided+" after looking at one operand only: for two reports that both satisfy that test cmp(a,b) and cmp(b,a) have the same sign, the order is not a total order and the sorted output depends on the input order")
+				return true
+			})
 		}
 	}
 
@@ -664,4 +716,65 @@ func c11Globals(c *Ctx) {
 	c.Check(len(reach) >= 100, "C11-R3", "worker-reachable functions enumerated", token.NoPos, itoa(len(reach))+" functions reachable from scanWorker and the Check methods", "call-graph closure from the workers is implausibly small ("+itoa(len(reach))+")")
 	c.Check(nStores == 0, "C11-R3", "no package-level stores in worker-reachable code", token.NoPos, "0 stores", itoa(nStores)+" stores")
 	c.Note("C11-R3 reachable set (%d): %s", len(names), strings.Join(names, " "))
+}
+
+// c11WorkerCount: checkRules starts exactly `workers` scan workers: the
+// counting loop around the go statement that runs scanWorker goes from 1 to
+// `<= workers` or from 0 to `< workers`. One worker too few is invisible for
+// every count but 1, where nothing is scanned at all and pint reports no problems.
+func c11WorkerCount(c *Ctx) {
+	p := c.P
+	cr := c.MustFunc("C11-R2", "cmd/pint.checkRules")
+	if cr == nil {
+		return
+	}
+	info := cr.Pkg.TypesInfo
+	sig := cr.Obj.Type().(*types.Signature)
+	var workersP types.Object
+	for i := 0; i < sig.Params().Len(); i++ {
+		if sig.Params().At(i).Type().String() == "int" && workersP == nil {
+			workersP = sig.Params().At(i)
+		}
+	}
+	pm := parentMap(cr.Decl.Body)
+	n := 0
+	ast.Inspect(cr.Decl.Body, func(nd ast.Node) bool {
+		call, ok := nd.(*ast.CallExpr)
+		if !ok || !isCallTo(info, call, "cmd/pint.scanWorker") {
+			return true
+		}
+		n++
+		var loop *ast.ForStmt
+		inGo := false
+		for cur := pm[ast.Node(call)]; cur != nil; cur = pm[cur] {
+			switch x := cur.(type) {
+			case *ast.GoStmt:
+				inGo = true
+			case *ast.ForStmt:
+				if loop == nil {
+					loop = x
+				}
+			}
+		}
+		ok2, detail := false, "scanWorker is not started from a counting loop"
+		if loop != nil && loop.Init != nil && loop.Cond != nil && loop.Post != nil {
+			init, _ := loop.Init.(*ast.AssignStmt)
+			post, _ := loop.Post.(*ast.IncDecStmt)
+			be, _ := ast.Unparen(loop.Cond).(*ast.BinaryExpr)
+			if init != nil && post != nil && be != nil && post.Tok == token.INC && len(init.Rhs) == 1 && len(init.Lhs) == 1 {
+				start, isC := constInt(info, init.Rhs[0])
+				v := objOf(info, init.Lhs[0])
+				same := v != nil && objOf(info, be.X) == v && objOf(info, post.X) == v
+				detail = "loop from " + exprStr(init.Rhs[0]) + " while `" + roleStr(info, loop.Cond) + "`"
+				if isC && same && isObj(info, be.Y, workersP) && ((start == 1 && be.Op == token.LEQ) || (start == 0 && be.Op == token.LSS)) {
+					ok2 = true
+				}
+			}
+		}
+		c.Check(ok2 && inGo, "C11-R2", "checkRules:exactly `workers` scan workers are started", call.Pos(), detail,
+			"the worker start loop does not run exactly `workers` times ("+detail+"): with --workers=1 no worker may run at all, the results channel is closed at once and pint reports zero problems")
+		return true
+	})
+	c.Check(n == 1, "C11-R2", "checkRules:one scanWorker start site", cr.Decl.Pos(), "one", itoa(n)+" call sites of scanWorker")
+	_ = p
 }
